@@ -1056,6 +1056,10 @@ func propTable() map[string]*PropSpec {
 		bl7.Params["byzfollow"] = 1
 		bl7.RequireReach = []string{"C01.some_commit"}
 		q = append(q, bl7)
+		// prefix 8: an early Byzantine COMMIT must not stand in for the PREPAREs a node never received
+		ec := mk(3, 8, 0, 1, 2, 0, 0, 3)
+		ec.RequireReach = []string{"C01.some_commit"}
+		q = append(q, ec)
 		// prefix 6: a node locked twice must vote with its latest lock (no forgery anywhere), then one symbolic COMMIT
 		locks := mk(2, 6, 0, 1, 2, 0, 0, 3)
 		locks.RequireReach = []string{"C01.two_commits"}
